@@ -191,14 +191,7 @@ theorem consumeStart_cases (st : Strat) (r : Res) :
   unfold consumeStart
   cases st.managed <;> simp
 
-theorem lose_cases (st : Strat) : (lose st = .boom ∧ st = .allTuple true) ∨ (lose st = .dec false ∧ st ≠ .allTuple true) := by
-  cases st with
-  | allTuple b => cases b <;> simp [lose]
-  | allVec b => simp [lose]
-  | join b => simp [lose]
-  | anyNone => simp [lose]
-  | anyFF => simp [lose]
-  | anyLF => simp [lose]
+theorem lose_cases (st : Strat) : lose st = .dec false := rfl
 
 theorem dtorStart_cases (st : Strat) (pv : Bool) :
     (dtorStart st pv = some (.dtorRel 0) ∧ st.isAllVec = true) ∨
